@@ -89,7 +89,7 @@ add("F-gx-interp-for-in-array-not-implemented", ["C03", "C06"],
     "Evaluator: `for x in <array>` is not implemented (eval.c prints `for loop requires range expression` and skips the loop); compiled code (NanoVM, and native since 2f1cb94) iterates.  "
     "This is the evaluator's share of F18 (whose native part is fixed): the same deviation switch describes it.",
     {"engine": "interp", "by": "transcript equals NanoSem with switch NATIVE_FOR_IN_ARRAY_SKIPPED"},
-    "families.py for_in_array_var (C03 corpus); families_gx.py interp_for_in_array", switches=["NATIVE_FOR_IN_ARRAY_SKIPPED"])
+    "families.py for_in_array_var (C03 corpus); families_gx.py interp_for_in_array", switches=["NATIVE_FOR_IN_ARRAY_SKIPPED"], status="fixed: 6eddea4")
 add("F-gx-interp-arrays-of-non-scalars", ["C03", "C04"],
     "Evaluator: arrays whose elements are not int / float / bool / string are not implemented consistently (F60 is the array<array<int>> literal case): a literal of structs, union values or tuples prints "
     "`Unsupported array element type` once per element and leaves the elements uninitialised (a later `at` crashes the compiler with SIGSEGV), array_push of an array into an array answers "
